@@ -14,12 +14,13 @@ RULE = ("worlds with max_recompute in {None,1,2,3,7}, idle stretches, sessions f
         "calls the party scribbles over every object it was handed; non-trivial = >=1 timer-only invocation and >=1 "
         "mutation fault; distinct = per-period history signature")
 PROBES = ["timer_only_call", "mutation", "session_finished_early_hidden", "third_period_pilots", "resumed", "paired_run",
-          "arrival_this_period_seen", "departure_this_period_hidden"]
-FAULT_DIMENSION = "party mutates handed SessionInfo / InfrastructureInfo / Constraint objects; scheduler crash + rerun"
+          "arrival_this_period_seen", "departure_this_period_hidden", "infra_seen_after_reconfig"]
+FAULT_DIMENSION = ("party mutates handed SessionInfo / InfrastructureInfo / Constraint objects; scheduler crash + rerun; "
+                   "operator changes a constraint limit between two periods (the scheduler must see the new, true limits)")
 ASSUMPTIONS = ["'handed' = argument of schedule(), results of active_sessions(), infrastructure_info(), get_constraints()",
                "truth for delivered energy/rates/pilots is the end-of-period tap of the previous period"]
 
-PROFILE = world.profile(faults={"mutate": 1.2, "crash": 0.3}, resume_modes=["rerun"],
+PROFILE = world.profile(reconfig=0.25, faults={"mutate": 1.2, "crash": 0.3}, resume_modes=["rerun"],
                         max_recompute=[None, 1, 2, 3, 7], horizon=(6, 36), chain_fill=(0.2, 0.8), b2b=0.3,
                         demand=(0.02, 1.2), party={"scripted": 4, "uncontrolled": 2, "greedy": 3, "rr": 1},
                         evse_kinds={"cont": 4, "dead": 2, "finite": 3})
@@ -149,7 +150,9 @@ def check(sc):
             if inf["station_ids"] != ids:
                 out.add("C05/infra_station_ids", "%s vs %s" % (inf["station_ids"], ids))
                 continue
-            cons = sc["network"]["constraints"]
+            cons = world.constraints_at(sc, t)
+            if any(r["t"] <= t for r in sc.get("reconfig", ())):
+                out.probe("infra_seen_after_reconfig")
             M = [[float(k["coeffs"].get(s, 0)) for s in ids] for k in cons]
             got_M = inf["constraint_matrix"] or []
             if [list(map(float, r)) for r in got_M] != M:
